@@ -66,6 +66,9 @@ type goTr struct {
 	declared map[types.Object]bool
 	results  *types.Tuple
 	stepOut  bool // results are (uint64, bool)
+	// coprocessor mode (package memory, type F256UnsignedCoproc): the receiver's `mem` field is the bus, its other
+	// fields are parameters of the translated function
+	coproc bool
 }
 
 // ---- types
@@ -226,6 +229,9 @@ var regSetter = map[string]string{"PC": "setPC", "SP": "setSP", "A": "setA", "X"
 // is e `c.Mem`?
 func (t *goTr) isMem(e ast.Expr) bool {
 	s, ok := e.(*ast.SelectorExpr)
+	if ok && t.coproc {
+		return s.Sel.Name == "mem" && t.isCpu(s.X)
+	}
 	return ok && s.Sel.Name == "Mem" && t.isCpu(s.X)
 }
 
@@ -274,6 +280,12 @@ func (t *goTr) expr(e ast.Expr) string {
 		}
 		bad("identifier %s", v.Name)
 	case *ast.SelectorExpr:
+		if t.isCpu(v.X) && t.coproc {
+			if b := basicOf(t.typeOf(v)); b != nil {
+				return leanIdent(v.Sel.Name)
+			}
+			bad("selector %s", exprString(e))
+		}
 		if t.isCpu(v.X) {
 			if f, ok := regField[v.Sel.Name]; ok {
 				return "(← get)." + f
@@ -479,6 +491,9 @@ func (t *goTr) conversion(to types.Type, arg ast.Expr) string {
 	case fw == 0 || tw == 0:
 		if tw == 0 && !fs {
 			return "(BitVec.toNat " + x + ")"
+		}
+		if fw == 0 {
+			return fmt.Sprintf("(BitVec.ofNat %d %s)", tw, x)
 		}
 		bad("conversion %s -> %s", from, to)
 	case tw > fw:
@@ -840,11 +855,70 @@ func (t *goTr) stmt(s ast.Stmt, em *emitter) {
 				t.block(def.Body, em)
 			}
 		}
+	case *ast.ForStmt:
+		t.unroll(v, em)
 	case *ast.ReturnStmt:
 		t.ret(v, em)
 	default:
 		bad("statement %T", s)
 	}
+}
+
+// unroll: `for i = c0; i < c1; i++ { body }` with constant bounds (at most 16 rounds) and a body that does not
+// assign to i: the body, once per value of i
+func (t *goTr) unroll(v *ast.ForStmt, em *emitter) {
+	init, ok := v.Init.(*ast.AssignStmt)
+	if !ok || len(init.Lhs) != 1 || len(init.Rhs) != 1 {
+		bad("for loop")
+	}
+	id, ok := init.Lhs[0].(*ast.Ident)
+	if !ok {
+		bad("for loop variable")
+	}
+	obj := t.info.Uses[id]
+	if obj == nil {
+		obj = t.info.Defs[id]
+	}
+	lo, ok1 := t.info.Types[init.Rhs[0]]
+	cond, ok2 := v.Cond.(*ast.BinaryExpr)
+	post, ok3 := v.Post.(*ast.IncDecStmt)
+	if !ok1 || lo.Value == nil || !ok2 || !ok3 || cond.Op != token.LSS || post.Tok != token.INC {
+		bad("for loop shape")
+	}
+	ci, okc := cond.X.(*ast.Ident)
+	pi, okp := post.X.(*ast.Ident)
+	hi := t.info.Types[cond.Y]
+	if !okc || !okp || t.info.Uses[ci] != obj || t.info.Uses[pi] != obj || hi.Value == nil {
+		bad("for loop shape")
+	}
+	if assignsTo(t.info, v.Body, obj) {
+		bad("for loop body assigns the loop variable")
+	}
+	a, _ := constant.Int64Val(lo.Value)
+	b, _ := constant.Int64Val(hi.Value)
+	if b-a > 16 || b < a {
+		bad("for loop with %d rounds", b-a)
+	}
+	ty := t.leanType(obj.Type())
+	for k := a; k < b; k++ {
+		lit := fmt.Sprintf("%d", k)
+		if ty != "Nat" {
+			lit = fmt.Sprintf("(%d : %s)", k, ty)
+		}
+		if init.Tok == token.DEFINE && !t.declared[obj] {
+			t.declared[obj] = true
+			em.line("let mut " + leanIdent(id.Name) + " : " + ty + " := " + lit)
+		} else {
+			em.line(leanIdent(id.Name) + " := " + lit)
+		}
+		t.stmts(v.Body.List, em)
+	}
+	em.line(leanIdent(id.Name) + " := " + func() string {
+		if ty != "Nat" {
+			return fmt.Sprintf("(%d : %s)", b, ty)
+		}
+		return fmt.Sprintf("%d", b)
+	}())
 }
 
 func (t *goTr) ret(v *ast.ReturnStmt, em *emitter) {
@@ -943,6 +1017,16 @@ func (t *goTr) function(fd *ast.FuncDecl) (res leanFn, err error) {
 			bad("receiver %s", sig.Recv().Type())
 		}
 		t.cpuVar = sig.Recv()
+		if t.coproc {
+			// the receiver's scalar fields are parameters
+			if st, ok := sig.Recv().Type().(*types.Pointer).Elem().Underlying().(*types.Struct); ok {
+				for i := 0; i < st.NumFields(); i++ {
+					if b := basicOf(st.Field(i).Type()); b != nil {
+						params = append(params, "("+leanIdent(st.Field(i).Name())+" : "+t.leanType(st.Field(i).Type())+")")
+					}
+				}
+			}
+		}
 	}
 	for i := 0; i < sig.Params().Len(); i++ {
 		p := sig.Params().At(i)
@@ -1011,7 +1095,11 @@ func (t *goTr) function(fd *ast.FuncDecl) (res leanFn, err error) {
 		if sig.Results().Len() == 0 {
 			em.line("return ()")
 		}
-		res.text = fmt.Sprintf("def %s (model : CpuModel) %s : M %s := do\n%s", fd.Name.Name, strings.Join(params, " "), rt, em.b.String())
+		if t.coproc {
+			res.text = fmt.Sprintf("def %s %s : M %s := do\n%s", fd.Name.Name, strings.Join(params, " "), rt, em.b.String())
+		} else {
+			res.text = fmt.Sprintf("def %s (model : CpuModel) %s : M %s := do\n%s", fd.Name.Name, strings.Join(params, " "), rt, em.b.String())
+		}
 	}
 	res.name = fd.Name.Name
 	for c := range t.calls {
@@ -1372,4 +1460,78 @@ func callsInText(text string, funcs map[string]bool) []string {
 	}
 	sort.Strings(res)
 	return res
+}
+
+// doCoprocCode: memory/f256_coproc.go, `WriteUMul` and `WriteUDiv` of F256UnsignedCoproc, translated the same way
+// (Generated/CoprocCode.lean; obligations in Facts/CoprocCode.lean; property C16)
+func doCoprocCode(repo, outDir string) {
+	files := parseDir(filepath.Join(repo, "memory"))
+	names := []string{}
+	for n := range files {
+		names = append(names, n)
+	}
+	sort.Strings(names)
+	list := []*ast.File{}
+	for _, n := range names {
+		list = append(list, files[n])
+	}
+	info := &types.Info{Types: map[ast.Expr]types.TypeAndValue{}, Defs: map[*ast.Ident]types.Object{}, Uses: map[*ast.Ident]types.Object{}}
+	typeErrs := []types.Error{}
+	conf := types.Config{Importer: &fakeImporter{cache: map[string]*types.Package{}}, Error: func(err error) {
+		if te, ok := err.(types.Error); ok {
+			typeErrs = append(typeErrs, te)
+		}
+	}}
+	pkg, _ := conf.Check("6502profiler/memory", fs, list, info)
+	var obj types.Object
+	if pkg != nil {
+		obj = pkg.Scope().Lookup("F256UnsignedCoproc")
+	}
+	baselinePath := filepath.Join(outDir, "..", "..", "baseline", "Generated", "CoprocCode.lean")
+	keepBaseline := func(why string) {
+		fail("coproc.code", why+"; baseline translation kept")
+		if data, err := os.ReadFile(baselinePath); err == nil {
+			writeIfChanged(filepath.Join(outDir, "CoprocCode.lean"), string(data))
+		}
+	}
+	if obj == nil {
+		keepBaseline("type F256UnsignedCoproc not found")
+		return
+	}
+	t := &goTr{info: info, cpuType: types.NewPointer(obj.Type()), known: map[string]bool{}, funcs: map[string]*ast.FuncDecl{}, coproc: true}
+	for _, f := range list {
+		for _, d := range f.Decls {
+			if fd, ok := d.(*ast.FuncDecl); ok && fd.Body != nil {
+				t.funcs[fd.Name.Name] = fd
+			}
+		}
+	}
+	var b strings.Builder
+	b.WriteString(header)
+	b.WriteString("import Verif.Impl.Alu\nset_option linter.unusedVariables false\n\n/-\n  memory/f256_coproc.go translated (harness/cmd/extract/gotolean.go): the two write handlers of the F256 math\n  coprocessor as programs over the memory they sit on.  Facts/CoprocCode.lean proves them equal to the model's.\n-/\nnamespace Verif.GenCoproc\nopen Verif Verif.Impl\n")
+	for _, n := range []string{"WriteUMul", "WriteUDiv"} {
+		fd, ok := t.funcs[n]
+		if !ok {
+			keepBaseline("function " + n + " not found")
+			return
+		}
+		for _, te := range typeErrs {
+			if te.Pos >= fd.Pos() && te.Pos <= fd.End() {
+				keepBaseline(n + ": type error: " + te.Msg)
+				return
+			}
+		}
+		lf, err := t.function(fd)
+		if err != nil {
+			keepBaseline(n + ": " + err.Error())
+			return
+		}
+		if len(lf.calls) > 0 {
+			keepBaseline(n + ": calls " + strings.Join(lf.calls, ", "))
+			return
+		}
+		b.WriteString("\n-- func " + n + "\n" + lf.text + "-- end func\n")
+	}
+	b.WriteString("\nend Verif.GenCoproc\n")
+	writeIfChanged(filepath.Join(outDir, "CoprocCode.lean"), b.String())
 }
